@@ -462,6 +462,14 @@ def verify(t: Target, seed=0, prefixes=None, budget=None, budget_s=None):
                 model = refine_bytes_model(p, ob, model, t.timeout_ms)
                 model = refine_uf_model(p, ob, model, t.timeout_ms)
                 rec['witness'] = replay(t, ob, model, mod)
+                if (ob.info or {}).get('internal') and not rec['witness'].get('replayed'):
+                    # a PROOF obligation (loop invariant, variant, call precondition) no longer holds, but no input was found on which the
+                    # real function breaks its postconditions: the proof is broken, the property is not shown to be - undecided, not an
+                    # alarm (a harmless restructuring of a loop must not be reported as a violation of the property)
+                    rec['status'] = 'unproved'
+                    res['undecided'].append(f'proof obligation {ob.name} no longer holds on path {sig} (solver counter-model; no failing input found on the real code)')
+                    res['obligations'].append(rec)
+                    continue
                 res['violations'].append(rec)
             elif st == 'unknown':
                 cand = None
